@@ -2,7 +2,10 @@ package rules
 
 import (
 	"fmt"
+	"go/types"
 	"math/big"
+
+	"cvsslint/internal/ir"
 
 	"cvsslint/internal/facts"
 	"cvsslint/internal/spec"
@@ -87,6 +90,7 @@ func c13(e *Env) {
 			k2.validChain("valid-chain")
 		})
 	}
+	e.guardPanics("neutrality-reduction", "reductions", func() { e.neutralityReductions(k3, k2) })
 }
 
 // capNeverBinds: with requirement weight 1 the modified impact sub-score
@@ -123,4 +127,147 @@ func (e *Env) capNeverBinds(k *scoreKit) {
 	capR := new(big.Rat).SetFloat64(0.915) // the cap constant is pinned by the C03 term comparison re-run above
 	f, _ := miss.Float64()
 	e.C.Check(miss.Cmp(capR) < 0, "cap-never-binds", "v3 max ISS at requirement weight 1", e.P.Pos(B.Named.Obj().Pos()), fmt.Sprintf("1-(1-wmax)^3 = %.6f < 0.915", f), fmt.Sprintf("1-(1-wmax)^3 = %.6f reaches the cap 0.915: environmental all-X would differ from temporal", f))
+}
+
+// neutralityReductions mechanises the paper argument of section 4.8: the
+// reference equations (which the extracted terms were just shown to equal) are
+// rewritten under "all optional metrics are Not Defined" using rewrite rules
+// that are each justified by a table fact decided in this same run, and the
+// result is compared syntactically with the lower level's equation.
+func (e *Env) neutralityReductions(k3, k2 *scoreKit) {
+	c := e.C
+	rule := "neutrality-reduction"
+	isValueOf := func(t *ir.Term, fld *ir.Term) bool {
+		return t.Op == ir.OCall && len(t.Args) >= 1 && t.Args[0].Key() == fld.Key() && t.Obj != nil && t.Obj.Name() == "Value"
+	}
+	if k3 != nil {
+		E, T, B := k3.level("Environmental"), k3.level("Temporal"), k3.level("Base")
+		// --- v3 temporal, E=RL=RC=X  ==> roundUp(BaseScore)
+		{
+			valid := k3.valid(T, T)
+			_ = valid
+			prod := ir.Mul(ir.Mul(ir.Mul(k3.method(T, B, "Score"), k3.w(T, "E")), k3.w(T, "RL")), k3.w(T, "RC"))
+			red := ir.Replace(k3.rnd("roundUp", prod), func(x *ir.Term) *ir.Term {
+				for _, n := range []string{"E", "RL", "RC"} {
+					if isValueOf(x, k3.fld(T, n)) {
+						return fl(1) // weight of X is exactly 1 (rule nd-weight)
+					}
+				}
+				return nil
+			})
+			want := k3.rnd("roundUp", k3.method(T, B, "Score"))
+			c.Check(red.Key() == want.Key(), rule, "v3 temporal with E=RL=RC=X", e.P.Pos(T.Method("Score").Pos()), "reduces to roundUp(Base.Score()): equal to the base score if roundUp is idempotent on tenths (not decided)", "does not reduce to roundUp(Base.Score()): "+clip(red.Pretty()))
+		}
+		// --- v3 environmental, all eleven metrics X
+		sigma := func(t *ir.Term) *ir.Term {
+			return ir.Replace(t, func(x *ir.Term) *ir.Term {
+				for _, n := range []string{"CR", "IR", "AR"} {
+					if isValueOf(x, k3.fld(E, n)) {
+						return fl(1)
+					}
+				}
+				for _, pr := range [][2]string{{"MAV", "AV"}, {"MAC", "AC"}, {"MUI", "UI"}, {"MC", "C"}, {"MI", "I"}, {"MA", "A"}} {
+					if isValueOf(x, k3.fld(E, pr[0])) {
+						return k3.w(E, pr[1]) // Modified X delegates to the base table (C20 weight obligations)
+					}
+				}
+				if isValueOf(x, k3.fld(E, "MPR")) {
+					return k3.w(E, "PR", "S")
+				}
+				if x.Op == ir.OCall && x.Obj != nil && x.Obj.Name() == "IsChanged" && len(x.Args) == 2 && x.Args[0].Key() == k3.fld(E, "MS").Key() {
+					return k3.pred(E, "S", "IsChanged")
+				}
+				if x.Op == ir.OCall && x.Obj == types.Object(k3.mathFn["Min"]) && len(x.Args) == 2 {
+					for i := 0; i < 2; i++ {
+						if f, ok := floatConst(x.Args[i]); ok && f == 0.915 {
+							return x.Args[1-i] // the cap never binds at requirement weight 1 (rule cap-never-binds)
+						}
+					}
+				}
+				return nil
+			})
+		}
+		envRef := v3EnvRef(k3)
+		baseRef, _ := v3BaseRef(k3, E)
+		tmul := func(x *ir.Term) *ir.Term {
+			return ir.Mul(ir.Mul(ir.Mul(x, k3.w(E, "E")), k3.w(E, "RL")), k3.w(E, "RC"))
+		}
+		v31c, _ := k3.pkg.Scope().Lookup("V3_1").(*types.Const)
+		is31 := ir.Bin("==", k3.fld(E, "Ver"), ir.Const(v31c.Val(), v31c.Type()))
+		changed := k3.pred(E, "S", "IsChanged")
+		n := 0
+		for _, el := range envRef {
+			if isZeroConst(el.ret) {
+				continue
+			}
+			var gs []*ir.Term
+			for _, g := range el.guards {
+				gs = append(gs, sigma(g))
+			}
+			has := func(g *ir.Term) bool { return ir.HasCond(gs, g) }
+			if has(changed) && has(is31) {
+				c.Ok(rule, "v3 environmental all-X, "+el.name, e.P.Pos(E.Method("Score").Pos()), "v3.1 with changed scope: the specification itself prescribes a different polynomial (excluded by the property)")
+				continue
+			}
+			red := sigma(el.ret)
+			// the base branch with the same scope polarity and positive impact
+			matched := false
+			for _, bl := range baseRef {
+				if isZeroConst(bl.ret) {
+					continue
+				}
+				if ir.HasCond(bl.guards, changed) != has(changed) {
+					continue
+				}
+				want := k3.rnd("roundUp", tmul(bl.ret))
+				matched = true
+				n++
+				c.Check(red.Key() == want.Key(), rule, "v3 environmental all-X, "+el.name, e.P.Pos(E.Method("Score").Pos()), "reduces to roundUp(<base equation of the same branch> * E * RL * RC) = the temporal equation", "with every environmental metric Not Defined the environmental equation does not reduce to the temporal one: "+firstDiff(red, want))
+			}
+			if !matched {
+				c.Undecided(rule, "v3 environmental all-X, "+el.name, e.P.Pos(E.Method("Score").Pos()), "no base branch of the same scope polarity")
+			}
+		}
+		c.Floor(rule, 5)
+		_ = n
+	}
+	if k2 != nil {
+		E, T, B := k2.level("Environmental"), k2.level("Temporal"), k2.level("Base")
+		// v2 temporal, all ND ==> round1(BaseScore)
+		prod := ir.Mul(ir.Mul(ir.Mul(k2.method(T, B, "Score"), k2.w(T, "E")), k2.w(T, "RL")), k2.w(T, "RC"))
+		red := ir.Replace(k2.rnd("round1", prod), func(x *ir.Term) *ir.Term {
+			for _, n := range []string{"E", "RL", "RC"} {
+				if isValueOf(x, k2.fld(T, n)) {
+					return fl(1)
+				}
+			}
+			return nil
+		})
+		want := k2.rnd("round1", k2.method(T, B, "Score"))
+		c.Check(red.Key() == want.Key(), rule, "v2 temporal with E=RL=RC=ND", e.P.Pos(T.Method("Score").Pos()), "reduces to round1(Base.Score()): equal to the base score if round1 is idempotent on tenths (not decided)", "does not reduce to round1(Base.Score()): "+clip(red.Pretty()))
+		// v2 environmental, TD:N ==> round1(0 * ...)
+		at := k2.method(E, B, "Score") // any adjusted temporal term; the shape of the outer product is what matters
+		outer := k2.rnd("round1", ir.Mul(ir.Add(at, ir.Mul(ir.Sub(fl(10), at), k2.w(E, "CDP"))), k2.w(E, "TD")))
+		red = ir.Replace(outer, func(x *ir.Term) *ir.Term {
+			if isValueOf(x, k2.fld(E, "TD")) {
+				return fl(0) // weight of TD:N is exactly 0 (rule td-none-zero)
+			}
+			return nil
+		})
+		okZero := red.Op == ir.OCall && len(red.Args) == 1 && red.Args[0].Op == ir.OProd
+		if okZero {
+			okZero = false
+			for _, a := range red.Args[0].Args {
+				if isZeroConst(a) {
+					okZero = true
+				}
+			}
+		}
+		c.Check(okZero, rule, "v2 environmental with TD:N", e.P.Pos(E.Method("Score").Pos()), "reduces to round1(0 * (...)): the Target Distribution weight is a factor of the whole sum", "TD:N does not zero the whole environmental score: "+clip(red.Pretty()))
+	}
+}
+
+func firstDiff(a, b *ir.Term) string {
+	x, y := ir.Diff(a, b)
+	return "found " + clip(x) + ", expected " + clip(y)
 }
